@@ -40,6 +40,9 @@ const (
 )
 
 func (r Result) String() string {
+	if r < 0 || int(r) > 2 {
+		return "known-region"
+	}
 	return [...]string{"unsat", "sat", "unknown"}[r]
 }
 
@@ -73,6 +76,9 @@ type Solver struct {
 	UFWindow int
 	// CheckCmd replaces (check-sat); $T is the timeout in ms (used for ideal-Q: nlsat first)
 	CheckCmd string
+	// CheckCmdLong, when set, is used instead for timeouts >= 5 s (obligation queries): a sequential
+	// portfolio; $A = 15% and $B = 10% of the timeout
+	CheckCmdLong string
 }
 
 // ufWindow: how many earlier applications of the same uninterpreted function get pairwise
@@ -313,7 +319,12 @@ func (s *Solver) Check(timeout time.Duration) Result {
 		ms = 1
 	}
 	s.send(fmt.Sprintf("(set-option :timeout %d)", ms))
-	if s.CheckCmd != "" {
+	if s.CheckCmdLong != "" && ms >= 5000 {
+		c := strings.ReplaceAll(s.CheckCmdLong, "$T", strconv.Itoa(ms))
+		c = strings.ReplaceAll(c, "$A", strconv.Itoa(ms*15/100))
+		c = strings.ReplaceAll(c, "$B", strconv.Itoa(ms/10))
+		s.send(c)
+	} else if s.CheckCmd != "" {
 		s.send(strings.ReplaceAll(s.CheckCmd, "$T", strconv.Itoa(ms)))
 	} else {
 		s.send("(check-sat)")
